@@ -260,6 +260,52 @@ def job_antenna(num_pols, asc, N, ycomplex=False):
     return recs
 
 
+def job_units(asc, num_pols):
+    """sample rate, first-channel frequency, tone frequency and drift given as quantities (MHz, GHz, kHz/s): the streams
+    deliver what they deliver for the same values as plain SI numbers"""
+    from props.frame_common import SQ
+    recs = []
+    tag = f"C10:units:{(asc, num_pols)}"
+    srM, fG, f0M, dk, lvl, t0 = (Sym(z3.Real(n)) for n in ('sr_MHz', 'fch1_GHz', 'f_start_MHz', 'drift_kHz_s', 'level', 't0'))
+    pre = [srM.t > 0]
+    outs = []
+    with volt_patches(proxy=proxy(), units=True):
+        for quant in (True, False):
+            sr = SQ(srM, 'MHz') if quant else srM * 1000000
+            f1 = SQ(fG, 'GHz') if quant else fG * 1000000000
+            f0 = SQ(f0M, 'MHz') if quant else f0M * 1000000
+            d = SQ(dk, 'kHz / s') if quant else dk * 1000
+            ant = A.Antenna(sample_rate=sr, fch1=f1, ascending=asc, num_pols=num_pols, t_start=t0, seed=3)
+            for st in ant.streams:
+                st.add_noise(0, 1)
+                st.add_constant_signal(f0, d, lvl)
+            outs.append((ant.get_samples(3), ant.t_start, ant.sample_rate, ant.fch1))
+    (va, ta, ra, fa), (vb, tb, rb, fb_) = outs
+    pairs = [(cparts(x), cparts(y)) for x, y in zip(va.flat, vb.flat)] + [((lift(ta), RV(0)), (lift(tb), RV(0))), ((lift(ra), RV(0)), (lift(rb), RV(0))), ((lift(fa), RV(0)), (lift(fb_), RV(0)))]
+    decide(tag, pairs, recs, 'C10:units', 'streams built from unit-carrying arguments differ from those built from the same values in Hz, Hz/s', dict(fn='units', asc=asc, num_pols=num_pols), pre)
+    r, _ = core.check(pre + [cparts(va[0, 0, 1])[0] != cparts(vb[0, 0, 1])[0] + 1], timeout_ms=30000)
+    recs.append(q(tag + ':twin', r, expect='sat'))
+    return recs
+
+
+def replay_units(p):
+    import astropy.units as u
+    from setigen.voltage import antenna as an
+    outs = []
+    for quant in (True, False):
+        kw = dict(sample_rate=0.001 * u.MHz, fch1=1e-7 * u.GHz) if quant else dict(sample_rate=1000.0, fch1=100.0)
+        ant = an.Antenna(ascending=p['asc'], num_pols=p['num_pols'], t_start=1.5, seed=4, **kw)
+        for st in ant.streams:
+            st.add_noise(0, 1)
+            if quant:
+                st.add_constant_signal(0.00018 * u.MHz, 0.02 * u.kHz / u.s, 1.5)
+            else:
+                st.add_constant_signal(180.0, 20.0, 1.5)
+        outs.append((ant.get_samples(64), ant.t_start))
+    bad = not np.allclose(outs[0][0], outs[1][0], rtol=1e-9, atol=1e-9) or abs(outs[0][1] - outs[1][1]) > 1e-12
+    return bad, f"unit-carrying stream arguments: max sample difference {float(np.max(np.abs(outs[0][0] - outs[1][0])))!r}, clocks {outs[0][1]!r} / {outs[1][1]!r}"
+
+
 def job_fractional_request(num_pols, count):
     """a request for a non-integer number of samples is either refused or leaves the antenna's clock equal to its
     streams' (NumPy refuses a float count in linspace; nothing may have moved when it does)"""
@@ -473,7 +519,7 @@ def replay_antenna(p):
     return bool(msgs), '; '.join(msgs) or 'antenna ok'
 
 
-REPLAYS = {'stream': replay_stream, 'antenna': replay_antenna, 'fractional': replay_fractional, 'resync': replay_resync}
+REPLAYS = {'stream': replay_stream, 'antenna': replay_antenna, 'fractional': replay_fractional, 'resync': replay_resync, 'units': replay_units}
 
 
 def main():
@@ -498,6 +544,8 @@ def main():
         for num_pols in (1, 2):
             jobs.append(('job_antenna', (num_pols, asc, 3 if not ck.thorough else 4)))
         jobs.append(('job_antenna', (2, asc, 2, True)))
+    for asc in (True, False):
+        jobs.append(('job_units', (asc, 2 if asc else 1)))
     for num_pols in (1, 2):
         for op in ('set_time', 'add_time', 'reset_start'):
             jobs.append(('job_clock_resync', (num_pols, op)))
